@@ -146,6 +146,7 @@ type c10Layout struct {
 	Bad      []int    `json:"bad"`
 	Vols     []int    `json:"vols"`
 	NSaved   int      `json:"nsaved"`
+	Pad      int      `json:"pad"`
 	ExpectOK bool     `json:"expect_ok"`
 }
 
@@ -259,6 +260,18 @@ func runC10(args []string) error {
 			}
 			specs = append(specs, refpar1.FileSpec{Name: name, Data: d, Saved: kd == "S"})
 		}
+		if l.Pad > 0 {
+			// a long file list: l.Pad further entries that are not saved, before (even layouts) or after the others
+			var pads []refpar1.FileSpec
+			for k := 0; k < l.Pad; k++ {
+				pads = append(pads, refpar1.FileSpec{Name: fmt.Sprintf("pad%03d.bin", k), Data: []byte{byte(k), byte(k >> 8), 7}, Saved: false})
+			}
+			if li%2 == 0 {
+				specs = append(pads, specs...)
+			} else {
+				specs = append(specs, pads...)
+			}
+		}
 		comment := []byte{}
 		if l.Comment {
 			// comments are free-form bytes in PAR 1.0: long, one byte, a single NUL, odd with trailing NULs, odd, even
@@ -273,7 +286,7 @@ func runC10(args []string) error {
 		for v := 1; v <= nvols; v++ {
 			ioutil.WriteFile(filepath.Join(dir, volName("r", v)), refpar1.BuildVolume(specs, uint64(v), refpar1.Parity(specs, v)), 0644)
 		}
-		key := fmt.Sprint(l.Kinds, l.Comment, l.Uni)
+		key := fmt.Sprint(l.Kinds, l.Comment, l.Uni, l.Pad)
 		if !seenRef[key] {
 			seenRef[key] = true
 			ev, err := par1SetEvent("p1refset", dir, "r", specs, nvols, len(comment), rng)
@@ -361,7 +374,7 @@ func runC10(args []string) error {
 				changedOK = false
 			}
 		}
-		lg.Emit(tracelog.M{"ev": "p1layout", "kinds": l.Kinds, "comment": l.Comment, "uni": l.Uni, "bad": l.Bad, "vols": l.Vols, "nsaved": l.NSaved,
+		lg.Emit(tracelog.M{"ev": "p1layout", "pad": l.Pad, "kinds": l.Kinds, "comment": l.Comment, "uni": l.Uni, "bad": l.Bad, "vols": l.Vols, "nsaved": l.NSaved,
 			"expect_ok": l.ExpectOK,
 			"verify":    tracelog.M{"err": vo.Err, "errtext": vo.ErrText + vo.Panic, "usable": vo.Usable, "unusable": vo.Unusable, "pusable": vo.PUsable},
 			"repair":    tracelog.M{"err": ro.Err, "errtext": ro.ErrText + ro.Panic, "repaired": ro.Repaired}, "restored": restored, "outside": outside,
